@@ -81,9 +81,14 @@ func (vx *Vaxis) NewKittyGraphic(img image.Image) *KittyImage {
 	return k
 }
 
-// Draw draws the [Image] to the [Window].
+// Draw draws the [Image] to the [Window]. The image will not be drawn if it is
+// larger than the window
 func (k *KittyImage) Draw(win Window) {
 	if atomicLoad(&k.encoding) {
+		return
+	}
+	w, h := win.Size()
+	if k.w > w || k.h > h {
 		return
 	}
 	col, row := win.Origin()
